@@ -19,7 +19,7 @@ CHECKS = {
     ),
     "C02": dict(
         level="exploration",
-        technique="deviation-bounded enumeration (k<=1 quick, k<=2 thorough) per format on the real dump_one/load_one, digits-aware attribute comparison, deterministic minimisation",
+        technique="deviation-bounded enumeration (k<=1 quick, k<=5 thorough + full product for formats with <=7000 cases) per format on the real dump_one/load_one, digits-aware attribute comparison, deterministic minimisation",
         text="Per read/write format: every object with <=k deviations from a default over atom counts crossing each field width, element sets, coordinate ranges, titles, bonds of every type, "
         "optional attributes/keys, grid shapes and values, matrix sizes is written, reloaded and compared attribute by attribute.",
         note="stored-attribute tables and printed digits typed per format in props/fmtspecs.py / wfnspecs.py; multi-line titles outside the domain",
@@ -78,7 +78,7 @@ CHECKS = {
     "C09": dict(
         level="exploration",
         technique="deviation-bounded enumeration over the 13 dump formats + full product (contraction x orbital kind x target x allow_changes); deep bit-exact snapshot of a twin object vs the dumped object",
-        text="Every object of the C02 space (k<=1 quick, k<=2 thorough; QCSchema always k<=2) is dumped with allow_changes False/True, three times, with read-only arrays and through dump_many; "
+        text="Every object of the C02 space (k<=1 quick, k<=3 thorough; QCSchema always k>=2) is dumped with allow_changes False/True, three times, with read-only arrays and through dump_many; "
         "objects needing conversion (generalized contractions, occs_aminusb) for every wavefunction target; write_input for both programs. Snapshots, member identity, return-value contract and "
         "equivalence of converted objects (density, spin density, nelec, spinpol, basis functions in order).",
         note="twin object built by the same deterministic constructor provides the 'before' snapshot, so observing does not disturb the object under test",
@@ -95,7 +95,7 @@ CHECKS = {
     "C11": dict(
         level="model_checking",
         technique="explicit-state BFS over operation histories on the real IOData class (ESB), invariants + differential read oracle",
-        text="All histories of <=3 (quick) / <=4 (thorough) assignments, clears and reads after each of 132 constructor calls are executed on the real class; "
+        text="All histories of <=3 (quick) / <=6 (thorough) assignments, clears and reads after each of 132 constructor calls are executed on the real class; "
         "invariants I1-I6 are evaluated in every reached state and on every transition, failing transitions included.",
         note="value menus of 2-4 values per attribute; no model: each trace is an implementation trace; hidden-field hash makes state merging sound",
         design="DESIGN.md §2 C11",
@@ -103,14 +103,14 @@ CHECKS = {
     "C12": dict(
         level="model_checking",
         technique="explicit-state BFS over assignment histories on the real MolecularOrbitals class + full products over constructor/Shell arguments",
-        text="All histories of <=3 assignments/reads from every restricted/unrestricted start object (norba,norbb<=2 quick / <=3 thorough, 5 initial occupation patterns incl. occupations within 1e-10 of integers, 3 occs_aminusb settings) with "
+        text="All histories of <=3 (quick) / <=5 (thorough) assignments/reads from every restricted/unrestricted start object (norba,norbb<=2 quick / <=3 thorough, 5 initial occupation patterns incl. occupations within 1e-10 of integers, 3 occs_aminusb settings) with "
         "invariants, read-back and other-spin-unchanged oracles on every transition; full constructor product and all Shell argument combinations with every single shape mismatch.",
         note="menus of 3 arrays per length plus wrong lengths n+1, n-1, 1 (broadcastable); invariants only demand what the statement says",
         design="DESIGN.md §2 C12",
     ),
     "C13": dict(
         level="fault_enumeration",
-        technique="exhaustive enumeration of frame sequences (length<=3 quick, <=4 + 50 thorough) x formats x iterable kinds on the real dump_many/load_many, plus every-line truncation and every-numeric-field corruption of multi-frame files",
+        technique="exhaustive enumeration of frame sequences (length<=3 quick, <=5 + 50 thorough) x formats x iterable kinds on the real dump_many/load_many, plus every-line truncation and every-numeric-field corruption of multi-frame files",
         text="All sequences over a 6-frame menu for XYZ/PDB/MOL2/SDF given as list, generator and generator raising at each item; event log of pulls and writes (laziness); reloaded frames bit-identical to per-frame dump_one+load_one; read side: all sequences (<=3, thorough <=4) of 5-6 heterogeneous frame texts from independent writers for XYZ/SDF/MOL2/PDB/GRO/extXYZ, every frame bit-identical to the same text loaded alone in a fresh forked process; "
         "truncation after every line and {x,1e,-,999999} in every numeric field of every non-last frame for XYZ, PDB, MOL2, SDF, GRO, extXYZ; corpus FCHK trajectories vs an independent parse.",
         note="a truncated/corrupted last frame may be dropped; a corrupted field may change only its own frame",
@@ -119,7 +119,7 @@ CHECKS = {
     "C14": dict(
         level="exploration",
         technique="exhaustive enumeration of shell sequences / orbital sets on the real conversion functions, independent function evaluator as oracle",
-        text="All shell sequences of length <=3 over 10 (quick) / 12 (thorough) shell kinds x keep_sp, all restricted orbital sets norb<=4 x occupation pattern (closed, open, fractional, near-integer) x occs_aminusb x missing arrays, "
+        text="All shell sequences of length <=3 over 10 shell kinds (quick) / <=4 over 12 (thorough) x keep_sp, all restricted orbital sets norb<=4 x occupation pattern (closed, open, fractional, near-integer) x occs_aminusb x missing arrays, "
         "each x allow_changes for prepare_*; structure, function values in order, overlap, idempotence, same-object and warning/error contract.",
         note="function values by ref/gto.py at 8 probe points; expected alpha/beta occupations restated from the class documentation",
         design="DESIGN.md §2 C14",
@@ -160,7 +160,7 @@ CHECKS = {
     ),
     "C19": dict(
         level="exploration",
-        technique="deviation-bounded enumeration (k<=2 quick, k<=4 thorough) over 11 input axes on the real write_input, field-wise parse against independently computed fields",
+        technique="deviation-bounded enumeration (k<=3 quick, k<=7 thorough) over 11 input axes on the real write_input, field-wise parse against independently computed fields",
         text="All cases with <=2 (quick) / <=4 (thorough) deviations from the default over program, molecule, charge, spin, run type, lot, basis, title, template, atom_line callback, kwargs.",
         note="hand-typed periodic table and CODATA angstrom; ties x.5 accept both neighbours; layout parsed by tokens",
         design="DESIGN.md §2 C19",
